@@ -158,6 +158,38 @@ pub fn new_topic(p: &mut DcpsDomainParticipant, name: &str) -> InstanceHandle {
     )
 }
 
+/// A publisher / subscriber installed DIRECTLY with the state `create_user_defined_publisher(QosKind::Default, no
+/// listener)` gives it on a participant that is not enabled (participant_methods.rs: handle = participant prefix +
+/// [counter, 0, 0, USER_DEFINED_WRITER_GROUP], `PublisherEntity::new(default qos, handle, empty list, None, mask)`):
+/// used where the real create call (40-80 s of solver time) is not the subject of the check.
+pub fn install_publisher(p: &mut DcpsDomainParticipant) -> InstanceHandle {
+    let c = p.publisher_counter;
+    let h = InstanceHandle::new(Guid::new(sp::PREFIX, EntityId::new([c, 0, 0], crate::transport::types::USER_DEFINED_WRITER_GROUP)).into());
+    p.publisher_counter = c + 1;
+    let e = crate::dcps::dcps_domain_participant::user_defined_publisher::PublisherEntity::new(
+        crate::infrastructure::qos::PublisherQos::const_default(),
+        h,
+        Vec::new(),
+        None,
+        sp::mask_from_bits(0),
+    );
+    p.domain_participant.user_defined_publisher_list.push(e);
+    h
+}
+pub fn install_subscriber(p: &mut DcpsDomainParticipant) -> InstanceHandle {
+    let c = p.subscriber_counter;
+    let h = InstanceHandle::new(Guid::new(sp::PREFIX, EntityId::new([c, 0, 0], crate::transport::types::USER_DEFINED_READER_GROUP)).into());
+    p.subscriber_counter = c + 1;
+    let e = crate::dcps::dcps_domain_participant::user_defined_subscriber::UserDefinedSubscriber::new(
+        h,
+        crate::infrastructure::qos::SubscriberQos::const_default(),
+        None,
+        sp::mask_from_bits(0),
+    );
+    p.domain_participant.user_defined_subscriber_list.push(e);
+    h
+}
+
 /// Entity id / GUID / handle `create_data_writer` computes for writer number `n` of the publisher whose
 /// handle byte 12 is `pub_byte` (keyless topic): mirrors publisher_methods.rs.
 pub fn writer_entity_id(pub_byte: u8, n: u16) -> EntityId {
